@@ -62,14 +62,17 @@ var c16BadTexts = []string{"rule \"n0\" begin", "rule \"n1\" \"d\" salience 1 be
 func init() {
 	register(&Prop{
 		ID:   "C16",
-		Rule: "operation histories of up to 20 steps on one pool (sizes (1,2),(1,3),(2,3),(2,4),(3,6), in 2% of the cases (64,70),(1,66),(33,34); in 2% of the cases a set of 130-260 rules replaced as a whole by one incremental update): UpdatePooledRules, UpdatePooledRulesIncremental, RemoveRules (present, absent, repeated names, empty list), ClearPoolRules, SetExecModel (valid and invalid), re-submission of the byte-identical text of the last full or last incremental update, invalid texts for both update kinds, interleaved with single executions and with probe-all executions (max requests parked simultaneously on Hold gates, which forces one request onto every instance, initial and additional); oracle = model (rule map, execution model, cleared flag): after every step IsExist / GetRulesNumber / GetRuleSalience / GetRuleDesc / GetExecModel agree with the model, every execution and every probe result equals the model's rule set with the current tags, every executing rule reports the @sal and @desc the model holds for it (validated against the reference scheduling model of the configured execution model), a cleared pool runs nothing and returns an empty map, updates after clear bring it back, no step panics; a second pool built from the same initial text is unaffected by the whole history. Non-trivial: the history contains clear -> incremental, or remove -> incremental, or an update followed by a probe-all on a pool with max >= 3; distinct by case hash",
+		Rule: "operation histories of up to 20 steps on one pool (sizes (1,2),(1,3),(2,3),(2,4),(3,6), in 2% of the cases (thorough 0.5%) (64,70),(1,66),(33,34); in 2% of the cases (thorough 0.5%) a set of 130-260 rules replaced as a whole by one incremental update): UpdatePooledRules, UpdatePooledRulesIncremental, RemoveRules (present, absent, repeated names, empty list), ClearPoolRules, SetExecModel (valid and invalid), re-submission of the byte-identical text of the last full or last incremental update, invalid texts for both update kinds, interleaved with single executions and with probe-all executions (max requests parked simultaneously on Hold gates, which forces one request onto every instance, initial and additional); oracle = model (rule map, execution model, cleared flag): after every step IsExist / GetRulesNumber / GetRuleSalience / GetRuleDesc / GetExecModel agree with the model, every execution and every probe result equals the model's rule set with the current tags, every executing rule reports the @sal and @desc the model holds for it (validated against the reference scheduling model of the configured execution model), a cleared pool runs nothing and returns an empty map, updates after clear bring it back, no step panics; a second pool built from the same initial text is unaffected by the whole history. Non-trivial: the history contains clear -> incremental, or remove -> incremental, or an update followed by a probe-all on a pool with max >= 3; distinct by case hash",
 		New:  func() interface{} { return &C16Case{} },
 		Gen: func(t *rapid.T) interface{} {
 			c := &C16Case{}
 			sizes := [][2]int64{{1, 2}, {1, 3}, {2, 3}, {2, 4}, {3, 6}}
 			s := sizes[uni(t, "pool_size", 0, len(sizes)-1)]
 			c.PoolMin, c.PoolMax = s[0], s[1]
-			if pct(t, "large_pool", 2) {
+			// the thorough tier draws the two expensive classes four times less often (it runs
+			// sixty times as many cases)
+			rare := func(label string) bool { return !thorough() || pct(t, label, 25) }
+			if pct(t, "large_pool", 2) && rare("large_pool_thorough") {
 				// more instances than fit one machine word of flags
 				big := [][2]int64{{64, 70}, {1, 66}, {33, 34}}
 				s = big[uni(t, "large_pool_size", 0, 2)]
@@ -77,7 +80,7 @@ func init() {
 			}
 			c.EM = uni(t, "em", 1, 4)
 			c.Init = genC08Rules(t, "init_", 0)
-			if pct(t, "large_set", 2) {
+			if pct(t, "large_set", 2) && rare("large_set_thorough") {
 				// a rule set of 130-260 rules, replaced as a whole by one incremental update with
 				// other saliences, then executed and probed
 				nbig := uni(t, "large_set_n", 130, 260)
